@@ -22,9 +22,15 @@ _REAL = {'os': os, 'gzip': gzip, 'json': json, 'hashlib': hashlib, 'tempfile': t
 _saved = []
 
 
+_MODS = None
+
+
 def repo_modules():
+    global _MODS
+    if _MODS is not None:
+        return _MODS
     import file_builder
-    mods = [file_builder]
+    mods = _MODS = [file_builder]
     for info in pkgutil.iter_modules(file_builder.__path__):
         if info.ispkg:
             continue
@@ -55,7 +61,82 @@ def _by_name_table(names):
     return table
 
 
+_PLAN = None
+
+
+def _plan():
+    """[(module, key, ('mod', modname) | ('attr', modname, attr))] computed once
+    per process from the real modules' globals."""
+    global _PLAN
+    if _PLAN is not None:
+        return _PLAN
+    plan = []
+    names_all = {k: True for k in _REAL}
+    table = {}
+    for modname, real in _REAL.items():
+        for attr in dir(real):
+            if attr.startswith('_'):
+                continue
+            obj = getattr(real, attr)
+            if callable(obj) and not isinstance(obj, type):
+                table[id(obj)] = (modname, attr)
+    table[id(os.path)] = ('os', 'path')
+    for attr in dir(os.path):
+        obj = getattr(os.path, attr)
+        if callable(obj) and not attr.startswith('_'):
+            table[id(obj)] = ('os.path', attr)
+    for m in repo_modules():
+        for k, v in list(vars(m).items()):
+            if k.startswith('__'):
+                continue
+            hit = None
+            for modname, real in _REAL.items():
+                if v is real:
+                    hit = ('mod', modname)
+            if hit is None and callable(v) and id(v) in table:
+                hit = ('attr',) + table[id(v)]
+            if hit is not None:
+                plan.append((m, k, v, hit))
+    _PLAN = plan
+    return plan
+
+
 def bind(env, extra=None):
+    """Bind env (ModelEnv/RealEnv) into all repo modules (cached plan)."""
+    unbind()
+    names = dict(env.names())
+    if extra:
+        names.update(extra)
+    for m, k, orig, hit in _plan():
+        if hit[0] == 'mod':
+            new = names.get(hit[1])
+            if new is None:
+                continue
+        else:
+            base = hit[1]
+            rep = names.get('os') if base in ('os', 'os.path') else names.get(base)
+            if rep is None:
+                continue
+            if base == 'os.path':
+                rep = rep.path
+            try:
+                new = getattr(rep, hit[2])
+            except AttributeError:
+                raise Unmodelled('%s.%s imported by name in %s' % (base, hit[2], m.__name__))
+        _saved.append((m, k, orig, True))
+        setattr(m, k, new)
+    for m in repo_modules():
+        for k in ('open', 'repr'):
+            if k in names:
+                had = k in vars(m)
+                _saved.append((m, k, vars(m).get(k), had))
+                setattr(m, k, names[k])
+    fb = sys.modules['file_builder.file_builder']
+    _saved.append((fb.FileBuilder, '_IS_WINDOWS', fb.FileBuilder._IS_WINDOWS, True))
+    fb.FileBuilder._IS_WINDOWS = False
+
+
+def bind_slow(env, extra=None):
     """Bind env (ModelEnv/RealEnv) into all repo modules.  extra: dict of
     additional module-global bindings {name: value} applied to every module
     (e.g. threading, repr)."""
